@@ -119,12 +119,51 @@ def build(defn, decl=None):
     return syms, model, sensors, pn, sn, cm
 
 
+def float_eval(e, env):
+    """plain binary64 evaluation of the expression tree as written (math module); None on overflow / domain error"""
+    import math
+    if e.is_Symbol:
+        return float(env[e])
+    if e.is_Number or e.is_NumberSymbol:
+        return float(e)
+    args = [float_eval(a, env) for a in e.args]
+    if any(a is None for a in args):
+        return None
+    try:
+        if e.is_Add:
+            r = math.fsum(args)
+        elif e.is_Mul:
+            r = 1.0
+            for a in args:
+                r *= a
+        elif e.is_Pow:
+            r = math.pow(args[0], args[1])
+        else:
+            f = getattr(math, {'abs': 'fabs'}.get(type(e).__name__.lower(), type(e).__name__.lower()), None)
+            if f is None:
+                return None
+            r = f(*args)
+    except (OverflowError, ValueError, ZeroDivisionError):
+        return None
+    return r if math.isfinite(r) else None
+
+
 def exact(expr, env):
+    """exact value (30 digits) of the expression at the point, or None when the point is outside the quantifier: the
+    expression is undefined there, or its own binary64 evaluation overflows / loses more than 1e-11 relative (then no
+    float implementation of this expression can be asked for 1e-9)"""
     v = expr.subs(env)
     v = sympy.N(v, 30)
     if not v.is_real or v.has(sympy.zoo, sympy.nan, sympy.oo):
         return None
-    return float(v)
+    x = float(v)
+    try:
+        fv = float_eval(expr, env)
+    except Exception:
+        fv = None
+    if fv is None or abs(fv - x) > 1e-11 * max(1.0, abs(x)):
+        return None
+    return x
 
 
 def run_job(job):
